@@ -55,6 +55,13 @@ func TraverseAST(node ast.Node, env *Pass1) ast.Node {
 			return nil
 		}
 
+		// 算術を挟んだ循環 (A EQU B+1 / B EQU C*2 / C EQU A-3) は、評価後の式に自分の名前が
+		// 現れなくても、既に定義済みの EQU を辿ると自分に戻ってきます。これも拒否します。
+		if equReaches(env, evalValueExp.TokenLiteral(), n.Id.Value, map[string]bool{}) {
+			log.Printf("error: EQU '%s' is defined in terms of itself (through other EQU names): %s", n.Id.Value, evalValueExp.TokenLiteral())
+			return nil
+		}
+
 		// Pass1 のメソッドを使用して環境にマクロを定義します。
 		env.DefineMacro(n.Id.Value, evalValueExp)
 		log.Printf("debug: Defined macro '%s' = %s", n.Id.Value, evalValueExp.TokenLiteral())
@@ -292,6 +299,29 @@ func getConstValue(exp ast.Exp) (int, bool) {
 		}
 	}
 	return 0, false
+}
+
+// equReaches は、式の文字列表現 text に現れる EQU 名を (定義を辿りながら) 展開していくと
+// name に到達するかどうかを返します。
+func equReaches(env *Pass1, text string, name string, seen map[string]bool) bool {
+	isIdentChar := func(r rune) bool {
+		return r == '_' || r == '$' || r == '.' || (r >= '0' && r <= '9') || (r >= 'a' && r <= 'z') || (r >= 'A' && r <= 'Z')
+	}
+	for _, tok := range strings.FieldsFunc(text, func(r rune) bool { return !isIdentChar(r) }) {
+		if tok == name {
+			return true
+		}
+		if seen[tok] {
+			continue
+		}
+		seen[tok] = true
+		if body, ok := env.LookupMacro(tok); ok && body != nil {
+			if equReaches(env, body.TokenLiteral(), name, seen) {
+				return true
+			}
+		}
+	}
+	return false
 }
 
 // referencesIdent は、式の文字列表現に識別子 name が (部分文字列ではなく) トークンとして現れるかを返します。
